@@ -7,7 +7,7 @@ from harness.props import tscommon as T
 from harness.props.tscommon import Tree, gbits, gop, gostr, gout, gres_bool, gstrs
 
 ID = "C10"
-COQ_TARGETS = ["TS.vo", "TSProofs.vo", "CorrC10.vo", "Props/C10.vo"]
+COQ_TARGETS = ["TS.vo", "TSProofs.vo", "TSProofs2.vo", "CorrC10.vo", "Props/C10.vo"]
 PROPS_FILE = "Props/C10.v"
 CORR_IMPORTS = "Base TS CorrC10"
 OPEN_SCOPES = ["string_scope", "list_scope"]
@@ -21,9 +21,10 @@ RULE = (
     "32-operation alphabet on the pool {a.A, a.B, b.A}, a seeded sample of the length-3/4 histories, and seeded random trees "
     "(depth <= 8, fan-out <= 3, 6-24 types) with refused operations mixed in; thorough: larger samples. On the final state all "
     "ordered pairs of the queried names go through ts.subsumes, Type.subsumes and is_instance_of; supertype, children, "
-    "descendants, is_primitive per name; get_type/contains_type over full, short, unknown and ambiguous strings; object "
-    "identity of every reachable Type. Every 200th case queries all registered types. Non-trivial: two user types in an "
-    "ancestor relation, or a refused operation."
+    "descendants, is_primitive per name; get_type/contains_type over full, short, unknown and ambiguous strings; 8-12 pairs of "
+    "strings (parent, child), each a full, unique short, ambiguous or unknown name, go through ts.subsumes and is_instance_of "
+    "(and through is_instance_of with one side passed as the registered Type); object identity of every reachable Type. "
+    "Every 200th case queries all registered types. Non-trivial: two user types in an ancestor relation, or a refused operation."
 )
 TRUSTED = [
     "Coq 8.16.1 kernel and vm_compute; theorems in Props/C10.v are closed under the global context",
@@ -38,14 +39,38 @@ ASSUMPTIONS = [
     "type systems built by create_type / create_feature / instantiation from TypeSystem(); XML, JSON and merge constructors are "
     "C12, C13, C02 (theorems are stated for every ts with WF ts)",
     "identifiers are ASCII; type names are non-empty and do not end in a dot",
-    "is_instance_of is compared on registered full names only (its string form compares the strings before any lookup, so a "
-    "short name is not an instance of its own full name: modelled, not compared)",
+    "is_instance_of on arbitrary strings is compared with the model on every string pair; the oracle demands the declared "
+    "relation (or TypeNotFoundError for a name get_type does not resolve) except where the code compares the strings before "
+    "any lookup: two different spellings of ONE type (is_instance_of('a.A','A') is False), the same unregistered string twice "
+    "(True), child uima.cas.TOP with an unknown or short-named parent (False), child 'TOP' (AttributeError) - modelled and "
+    "compared with the model, not judged by the oracle (reported as quirks)",
 ]
 
 POOL = ["a.A", "a.B", "b.A"]
 PARENTS = ["uima.tcas.Annotation", "a.A", "a.B", "b.A", "A", "B", "uima.cas.StringArray", "StringArray", "no.Such"]
 BASE_LOOKUPS = ["a.A", "a.B", "b.A", "A", "B", "Annotation", "uima.tcas.Annotation", "TOP", "StringArray", "no.Such", "Nope",
                 "uima.cas.Nope", "DocumentAnnotation", "cas.String", "String"]
+
+
+# string pairs (parent, child) of every exhaustively enumerated history: the parent as a unique / ambiguous short name of a
+# user type, the short name of a built-in ancestor, an unknown name; the child by full name
+FIXED_NAME_PAIRS = [["Annotation", "a.A"], ["A", "a.B"], ["B", "b.A"], ["TOP", "b.A"], ["Nope", "a.A"], ["AnnotationBase", "B"]]
+
+
+def _det_pairs(users):
+    """string pairs (parent, child) of an enumerated history, directed at the types it declares"""
+    cand = [["Annotation", "A"], ["a.A", "B"], ["TOP", "Nope"], ["B", "a.B"]]
+    for u in users[:2]:
+        cand += [["Annotation", u], ["AnnotationBase", T.short(u)]]
+    for u in users[:2]:
+        cand += [[T.short(u), v] for v in users[:3] if v != u]
+    if users:
+        cand += [["Nope", users[0]], ["TOP", users[-1]]]
+    pairs = []
+    for p in cand + FIXED_NAME_PAIRS:
+        if p not in pairs:
+            pairs.append(p)
+    return pairs[:12]
 
 
 def ct(n, s, d=None):
@@ -87,7 +112,14 @@ def _mk(ops, rng=None, extra_names=(), full=False):
         for _ in range(4):
             pairs.append([rng.choice(lookups), rng.choice(lookups)])
     else:
-        pairs = [["Annotation", "A"], ["a.A", "B"], ["TOP", "Nope"], ["B", "a.B"]]
+        pairs = _det_pairs(users)
+    if rng is not None:
+        # (parent, child): the parent by any spelling get_type accepts or refuses, the child mostly a registered full name
+        par = [T.short(u) for u in users] + users[:3] + ["Annotation", "TOP", "AnnotationBase", "Nope", "no.Such", "String"]
+        for _ in range(4):
+            pairs.append([rng.choice(par), rng.choice(users + [T.short(users[0])]) if users else rng.choice(lookups)])
+        pairs.append([rng.choice(par), rng.choice(["uima.tcas.DocumentAnnotation", "uima.cas.TOP", "DocumentAnnotation", "Nope"])])
+        pairs.append([rng.choice(lookups), rng.choice(lookups)])
     refs_user = any(op["op"] == "cf" and (op.get("e") in users or op["r"] in users or T.short(op["r"]) in [T.short(u) for u in users])
                     for op in ops)
     return {"ops": ops, "names": names, "lookups": lookups, "pairs": pairs, "xml": bool(users) and (refs_user or len(ops) % 3 == 0)}
@@ -205,6 +237,14 @@ def run_impl(cassis, sc):
     obs["contains"] = [bool(ts.contains_type(s)) for s in sc["lookups"]]
     obs["contains_exact"] = [bool(ts.contains_type(s, True)) for s in sc["lookups"]]
     obs["pairs_sub"] = [_q(cassis, lambda: ts.subsumes(x, y)) for x, y in sc["pairs"]]
+    # is_instance_of(child, parent) with the names as given (full, short, ambiguous, unknown) ...
+    obs["pairs_iio"] = [_q(cassis, lambda: ts.is_instance_of(y, x)) for x, y in sc["pairs"]]
+    # ... and with one side passed as the registered Type object (found by scanning get_types, not through get_type)
+    by_name = {t.name: t for t in ts.get_types(built_in=True)}
+    obs["pairs_iio_objchild"] = [_q(cassis, lambda: ts.is_instance_of(by_name[y], x)) if y in by_name else None
+                                 for x, y in sc["pairs"]]
+    obs["pairs_iio_objparent"] = [_q(cassis, lambda: ts.is_instance_of(y, by_name[x])) if x in by_name else None
+                                  for x, y in sc["pairs"]]
     obs["ident"] = T.identity_failures(ts)[:5]
     # the same identity requirement on the type system obtained by a descriptor round trip (loading is C12's subject:
     # a round trip that raises is not judged here)
@@ -221,6 +261,22 @@ def run_impl(cassis, sc):
 
 
 # ---------------------------------------------------------------------------------------------- oracle
+def _iio_expect(tree, x, y):
+    """What the property demands of is_instance_of(child=y, parent=x) for two strings: the answer of the declared tree on the
+    types the names resolve to (full name, else unique short name), TypeNotFoundError when one of them does not resolve.
+    None = no demand: the string comparisons the code makes before any lookup (see ASSUMPTIONS) decide these."""
+    tx, ty = tree.resolve(x), tree.resolve(y)
+    if x == y:
+        return {"ok": True} if tx is not None else None
+    if y == T.TOP:
+        return {"ok": False} if tx is not None and tx != T.TOP else None
+    if ty is None or tx is None:
+        return {"err": "ETypeNotFound"}
+    if tx == ty or ty == T.TOP:
+        return None
+    return {"ok": tree.subsumes(tx, ty)}
+
+
 def oracle(cassis, sc, obs):
     tree = Tree()
     for i, (op, out) in enumerate(zip(sc["ops"], obs["out"])):
@@ -265,6 +321,16 @@ def oracle(cassis, sc, obs):
         want = {"err": "ETypeNotFound"} if tx is None or ty_ is None else {"ok": tree.subsumes(tx, ty_)}
         if r != want:
             return f"subsumes: ts.subsumes({x!r}, {y!r}) gave {r}, expected {want}"
+    for k, (x, y) in enumerate(sc["pairs"]):
+        want = _iio_expect(tree, x, y)
+        if want is None:
+            continue
+        for key, what in (("pairs_iio", f"is_instance_of({y!r}, {x!r})"), ("pairs_iio_objchild", f"is_instance_of(<Type {y}>, {x!r})"),
+                          ("pairs_iio_objparent", f"is_instance_of({y!r}, <Type {x}>)")):
+            r = obs[key][k]
+            if r is not None and r != want:
+                return (f"is_instance_of: {what} gave {r}; get_type resolves the parent to {tree.resolve(x)} and the child to "
+                        f"{tree.resolve(y)}, the declared tree demands {want} (ts.subsumes({x!r}, {y!r}) gave {obs['pairs_sub'][k]})")
     if obs["ident"]:
         return "identity: " + obs["ident"][0]
     if obs["ident_xml"]:
@@ -302,6 +368,7 @@ def render(sc, obs):
         gbits(obs["contains"]), gbits(obs["contains_exact"]),
         glist([gpair(gstr(x), gstr(y)) for x, y in sc["pairs"]]),
         glist([gres_bool(r) for r in obs["pairs_sub"]]),
+        glist([gres_bool(r) for r in obs["pairs_iio"]]),
         gbool(not obs["ident"] and not obs["ident_xml"]),
     ]
     return "mkCase " + " ".join(f"({p})" for p in parts)
@@ -357,15 +424,25 @@ def distribution(scenarios, observations):
             for x in o["out"]:
                 outs[x] = outs.get(x, 0) + 1
     depth = []
+    n_pairs = judged = short_anc = unresolved = 0
     for s in scenarios:
         tree = Tree()
         for op in s["ops"]:
             tree.apply(op, "ok")
         depth.append(max([len(tree.ancestors(n)) for n in tree.sup]))
+        for x, y in s["pairs"]:
+            n_pairs += 1
+            want = _iio_expect(tree, x, y)
+            judged += want is not None
+            tx, ty = tree.resolve(x), tree.resolve(y)
+            short_anc += bool(want == {"ok": True} and x != tx and tx != ty)
+            unresolved += bool(want == {"err": "ETypeNotFound"})
     return {"cases": len(scenarios), "operations": sum(len(s["ops"]) for s in scenarios), "outcomes": outs,
             "max_depth_below_TOP": max(depth or [0]), "cases_depth_ge_5": sum(1 for d in depth if d >= 5),
             "pairs_queried": sum(len(o["names"]) ** 2 for o in observations if o),
             "lookups": sum(len(s["lookups"]) for s in scenarios),
+            "name_pairs": n_pairs, "name_pairs_judged_by_oracle": judged,
+            "is_instance_of_short_named_proper_ancestor": short_anc, "is_instance_of_unresolved_name": unresolved,
             "ambiguous_lookups": sum(1 for s, o in zip(scenarios, observations) if o for x, g in zip(s["lookups"], o["get"])
                                      if g is None and "." not in x and x in ("A", "T0", "T1", "U0", "U1", "V0", "W0"))}
 
